@@ -21,6 +21,7 @@ other.
 from __future__ import annotations
 
 import asyncio
+import contextvars
 import queue
 import sys
 import threading
@@ -105,6 +106,13 @@ class StdoutProxy:
 
         # Keep track of the curret app session.
         self.app_session = get_app_session()
+
+        # Remember the context in which we were created. The flush thread has
+        # an empty context of its own, in which `get_app_session()` returns
+        # the default `AppSession`. Callbacks that we schedule in the event
+        # loop have to run in (a copy of) the creator's context instead, so
+        # that `run_in_terminal` finds the application of *our* session.
+        self._context = contextvars.copy_context()
 
         # See what output is active *right now*. We should do it at this point,
         # before this `StdoutProxy` instance is possibly assigned to `sys.stdout`.
@@ -229,7 +237,9 @@ class StdoutProxy:
         else:
             # Make sure `write_and_flush` is executed *in* the event loop, not
             # in another thread.
-            loop.call_soon_threadsafe(write_and_flush_in_loop)
+            loop.call_soon_threadsafe(
+                write_and_flush_in_loop, context=self._context.copy()
+            )
 
     def _write(self, data: str) -> None:
         """
